@@ -43,7 +43,7 @@ vars == <<cfg, f, fmq, fsq, act, jb, now, mon, env>>
 NoLb == [refill |-> 0, interval |-> 0, max |-> 0, balance |-> 0, dl |-> 0]
 NoJob == [sub |-> FALSE, key |-> 0, ttl |-> -1, port |-> FALSE, prio |-> 0, nd |-> FALSE, born |-> 0,
           st |-> 0, h |-> 0, d |-> 0, why |-> "", acc |-> FALSE, ret |-> FALSE, lost |-> 0, undeliv |-> FALSE,
-          rleft |-> 0, att |-> 0, seq |-> 0]    \* RetriableMessage: retries left (MessageRetryStrategy::Count), attempts so far
+          rleft |-> 0, att |-> 0, seq |-> 0, r0 |-> 0]    \* RetriableMessage: retries left (MessageRetryStrategy::Count), attempts so far
 NoAct == [wid |-> NoW, mb |-> <<>>, run |-> 0, st |-> "none", stop |-> FALSE, kill |-> FALSE, dying |-> FALSE]
 NewWorker(inc, lim, mode) == [inc |-> inc, mq |-> <<>>, cur |-> {}, pend |-> [k \in Keys |-> 0], dr |-> FALSE, lim |-> lim, mode |-> mode]
 Msg(m, a, b, c, g) == [m |-> m, a |-> a, b |-> b, c |-> c, g |-> g]
@@ -606,6 +606,10 @@ DrainComplete0 == f.up = "dead" => \A j \in JobIds : jb[j].sub => Places(j) = 0
 \* a job refused because of draining never runs
 DrainRefuses == \A j \in JobIds : (jb[j].sub /\ jb[j].why = "shutdown") => (jb[j].h = 0 /\ jb[j].st = 0)
 
+\* RetriableMessage: every re-submission uses up exactly one retry, there are never more than the strategy allows, and an
+\* attempt that was handled to completion is the last one
+RetryBudget == \A j \in JobIds : jb[j].sub => (jb[j].att + jb[j].rleft = jb[j].r0)
+
 \* the same, read with the recorded deviations (DESIGN §6 items 2 and 3)
 LostOnePerDeath == LostOnePerDeath0 \/ Stale
 KeyExclusive == KeyExclusive0 \/ Stale \/ "ParkedJobNotSticky" \in mon.dev
@@ -626,6 +630,8 @@ NeverStale == ~Stale
 NeverDrainingSlotReplaced == "DrainingSlotReplaced" \notin mon.dev
 NeverExclBad == ~mon.exclBad
 NeverDrained == f.up # "dead"
+NeverRetried == \A j \in JobIds : jb[j].att = 0
+NeverExhausted == \A j \in JobIds : ~(jb[j].r0 > 0 /\ jb[j].rleft = 0 /\ jb[j].lost > 0)
 NeverClosedCastFails == "ClosedWorkerQueueOverLimit" \notin mon.dev
 NeverParked == "ParkedJobNotSticky" \notin mon.dev
 NeverClosing == \A a \in Incs : act[a].st # "closing"
